@@ -6,6 +6,7 @@ import (
 	"fmt"
 	"os"
 	"sort"
+	"strings"
 	"testing"
 	"time"
 
@@ -173,6 +174,7 @@ var (
 	fVerbose  = flag.Bool("v2", false, "print the event log of every run")
 	fShrink   = flag.Int("shrink", 400, "maximum runs spent minimising a violation")
 	fShrinkS  = flag.Int("shrinksec", 15, "maximum wall-clock seconds spent minimising a violation")
+	fRaceLog  = flag.String("racelog", "", "prefix of the race detector's log (GORACE log_path); new reports are attributed to the run that produced them")
 )
 
 // Replay is the on-disk form of a violation.
@@ -248,6 +250,14 @@ func TestSim(t *testing.T) {
 		plan := scn.Generate(simrt.NewRng(seed, simrt.StreamGen), *fTier)
 		o := RunOpts{KeepLog: *fVerbose, CheckGoid: *fCheckG > 0 && i%*fCheckG == 0}
 		rep := scn.Run(t, seed, plan, o)
+		if *fRaceLog != "" {
+			if kept, ignored := newRaceReports(); len(kept) > 0 && len(rep.Violations) == 0 && rep.Inconclusive == "" {
+				rep.violate("C18-data-race", "the race detector reports unsynchronised accesses inside the library on this simulated schedule (%d report(s), %d in simulator/harness code ignored):\n%s", len(kept), ignored, trunc(kept[0], 3500))
+			} else {
+				sum.Counts["race_reports_ignored_simulator_frames"] += int64(ignored)
+			}
+			sum.Counts["probe:runs_under_race_detector"]++
+		}
 		sum.Runs++
 		sum.SubRuns += max(rep.subRuns, 1)
 		sum.Steps += rep.Steps
@@ -396,6 +406,11 @@ func doReplay(t *testing.T) {
 		os.Exit(2)
 	}
 	rep := scn.Run(t, rp.Seed, plan, RunOpts{KeepLog: true, CheckGoid: true})
+	if *fRaceLog != "" {
+		if kept, ignored := newRaceReports(); len(kept) > 0 && len(rep.Violations) == 0 && rep.Inconclusive == "" {
+			rep.violate("C18-data-race", "the race detector reports unsynchronised accesses inside the library on this simulated schedule (%d report(s), %d in simulator/harness code ignored):\n%s", len(kept), ignored, trunc(kept[0], 3500))
+		}
+	}
 	if *fVerbose {
 		for _, l := range rep.Log {
 			fmt.Println(l)
@@ -425,3 +440,66 @@ func doReplay(t *testing.T) {
 }
 
 var _ = simpool.LIFO
+
+// ---------------------------------------------------------------- race detector log
+
+var raceLogOff int64
+
+// newRaceReports returns the race reports written since the last call whose two racing
+// accesses are both in library code; reports with an access in the simulator or the harness
+// (which are serialised by the hidden baton, not by synchronisation) are counted and dropped.
+func newRaceReports() (kept []string, ignored int) {
+	path := fmt.Sprintf("%s.%d", *fRaceLog, os.Getpid())
+	b, err := os.ReadFile(path)
+	if err != nil || int64(len(b)) <= raceLogOff {
+		return nil, 0
+	}
+	text := string(b[raceLogOff:])
+	raceLogOff = int64(len(b))
+	for _, blk := range strings.Split(text, "==================") {
+		if !strings.Contains(blk, "WARNING: DATA RACE") {
+			continue
+		}
+		if raceBlockInLibrary(blk) {
+			kept = append(kept, strings.TrimSpace(blk))
+		} else {
+			ignored++
+		}
+	}
+	return kept, ignored
+}
+
+func raceBlockInLibrary(blk string) bool {
+	// sections: "<Read|Write|Previous read|Previous write> at ... by ...:" followed by frames
+	lines := strings.Split(blk, "\n")
+	accesses := 0
+	for i := 0; i < len(lines); i++ {
+		l := strings.TrimSpace(lines[i])
+		if !(strings.HasPrefix(l, "Read at") || strings.HasPrefix(l, "Write at") || strings.HasPrefix(l, "Previous read at") ||
+			strings.HasPrefix(l, "Previous write at") || strings.HasPrefix(l, "Atomic") || strings.HasPrefix(l, "Previous atomic")) {
+			continue
+		}
+		accesses++
+		// The access belongs to the first frame (from the top) that is code of this project: library
+		// (spec, baselibrary, lz4) or simulator/harness. Accesses made by the scheduler goroutine
+		// (hooks and predicates it evaluates while no task runs) never count.
+		first := ""
+		sched := false
+		for j := i + 1; j < len(lines); j++ {
+			f := strings.TrimSpace(lines[j])
+			if f == "" {
+				break
+			}
+			if strings.Contains(f, "testingSynctestTest") || strings.Contains(f, "simrt.(*Sim).loop") || strings.Contains(f, "simrt.(*Sim).doShutdown") {
+				sched = true
+			}
+			if first == "" && (strings.HasPrefix(f, "github.com/basecomplextech/") || strings.HasPrefix(f, "github.com/pierrec/") || strings.HasPrefix(f, "verif/simcheck")) {
+				first = f
+			}
+		}
+		if sched || first == "" || strings.Contains(first, "/verifsim/") || strings.HasPrefix(first, "verif/simcheck") {
+			return false
+		}
+	}
+	return accesses >= 2
+}
